@@ -28,7 +28,7 @@ func rows(xs []string) string {
 	return strings.Join(xs, ";")
 }
 
-func (e *Env) queryLines(st *Step) []string {
+func (e *Env) queryLines(st *Step, all bool) []string {
 	post := st.PostS
 	qs := keeper.NewQueryServerImpl(e.App.AllianceKeeper)
 	cctx, _ := e.Ctx.CacheContext()
@@ -87,6 +87,9 @@ func (e *Env) queryLines(st *Step) []string {
 		}
 		return rows(xs), nil
 	})
+	if !all {
+		return out
+	}
 	// contract bindings
 	kp := e.App.AllianceKeeper
 	querier := bindings.CustomQuerier(bindings.NewAllianceQueryPlugin(&kp))
